@@ -86,3 +86,45 @@ def _edge_markers(epidata: 'list') -> 'tuple':
 def _attr_markers(epidata: 'list') -> 'tuple':
     requires(wf_markers(epidata))
     ensures(result == (role_epis_of(epidata), other_epis_of(epidata) + pops_of(epidata)))
+
+
+# ---- canonicalize_roles on trees (C13, tree clause) ------------------------------------------------
+
+@spec
+def canon_edge_role(model: 'Model', role: 'str') -> 'str':
+    """the role canonicalised, its alignment suffix kept as written"""
+    return canon_role(model, role.partition('~')[0]) + role.partition('~')[1] + role.partition('~')[2]
+
+
+@spec
+def canon_branches(bs: 'list', model: 'Model') -> 'list':
+    if len(bs) == 0:
+        return []
+    if is_atomic(bs[-1][1]):
+        return canon_branches(bs[:-1], model) + [(canon_edge_role(model, bs[-1][0]), bs[-1][1])]
+    return canon_branches(bs[:-1], model) + [(canon_edge_role(model, bs[-1][0]), canon_node(bs[-1][1], model))]
+
+
+@spec
+def canon_node(t: 'val', model: 'Model') -> 'val':
+    """same variables, same shape, same targets; every role canonicalised"""
+    return (t[0], canon_branches(t[1], model))
+
+
+@contract('penman.transform:_canonicalize_node')
+def _canonicalize_node(node: 'val', model: 'Model') -> 'tuple':
+    requires(wf_tnode(node))
+    ensures(result == canon_node(node, model))
+    invariant(0, lambda: canonical_edges == canon_branches(edges[:_i], model))
+    invariant(0, lambda: var == node[0] and edges == node[1])
+
+
+@contract('penman.transform:canonicalize_roles')
+def canonicalize_roles(t: 'Tree', model: 'Model') -> 'Tree':
+    requires(wf_tnode(t.node))
+    # a new tree: every role canonical, everything else (variables, targets, metadata) as it was
+    ensures(result.node == canon_node(t.node, model), label='roles')
+    ensures(dict_keys(result.metadata) == dict_keys(t.metadata)
+            and forall_idx(dict_keys(t.metadata), lambda i, k: dict_get(result.metadata, k) == dict_get(t.metadata, k)),
+            label='metadata')
+    ensures(t.node == old(t).node, label='argument-kept')
